@@ -29,7 +29,7 @@ STUBS = ["Circuit.sblock_queue = list-backed stub; start sequence = real resolve
 ASSUMPTIONS = ["Delta: delta >= 0", "truthiness of an integer value = (value != 0)"]
 EXPECT_LABELS = {'all': ['edge', 'nfu', 'delta-step', 'delta-induct', 'dataedit', 'pipeline-data', 'ifoutput-undef', 'ifoutput-data',
                          'pipeline-ret', 'ifoutput', 'ifnotinit']}
-EXPECT_NOTES = {'all': ['control-true', 'control-false']}
+EXPECT_NOTES = {'all': ['control-true', 'control-false', 'two-deliveries-two-control-blocks']}
 FLOORS = {'quick': {'paths': 500, 'checks': 1000}, 'thorough': {'paths': 5000, 'checks': 10000}}
 
 
@@ -60,6 +60,37 @@ def scen_edge(env):
         exp = Or_(And_(Not_(pt), vt, rise), And_(pt, Not_(vt), fall))
     env.obs('edge', got)
     env.check('edge', Iff_(truthy(got), exp))
+    env.check('edge-type', isinstance(got, bool))
+
+
+EDGE_POOL = [None, False, True, '', 'x', 0.0, 2.5, (), (0,), 0, 1, 2]
+
+
+def scen_edge_forms(env):
+    """Edge: every way of giving the flags (keywords, positional order rise/fall/u_rise/u_fall, omitted = documented
+    defaults rise=False, fall=False, u_rise=None -> rise, u_fall=False) x previous/value over objects of any type
+    (only their truth value counts)"""
+    flags = {'rise': bool(env.choose(2, 'rise')), 'fall': bool(env.choose(2, 'fall')),
+             'u_rise': [None, False, True][env.choose(3, 'u_rise')], 'u_fall': bool(env.choose(2, 'u_fall'))}
+    form = env.pick(['keywords', 'positional', 'omit-defaults'], 'form')
+    if form == 'keywords':
+        f = edzed.Edge(**flags)
+    elif form == 'positional':
+        f = edzed.Edge(flags['rise'], flags['fall'], flags['u_rise'], flags['u_fall'])
+    else:
+        # every flag that has its default value is left out
+        defaults = {'rise': False, 'fall': False, 'u_rise': None, 'u_fall': False}
+        f = edzed.Edge(**{k: v for k, v in flags.items() if v != defaults[k] or (k == 'u_rise' and v is not None)})
+    prev_undef = env.choose(2, 'prev_undef')
+    prev = UNDEF if prev_undef else EDGE_POOL[env.choose(len(EDGE_POOL), 'previous')]
+    val = EDGE_POOL[env.choose(len(EDGE_POOL), 'value')]
+    got = f({'previous': prev, 'value': val, 'source': 'x'})
+    eff_urise = flags['rise'] if flags['u_rise'] is None else flags['u_rise']
+    if prev_undef:
+        exp = (bool(val) and eff_urise) or (not bool(val) and flags['u_fall'])
+    else:
+        exp = (not bool(prev) and bool(val) and flags['rise']) or (bool(prev) and not bool(val) and flags['fall'])
+    env.check('edge', bool(got) == bool(exp), info=lambda: (form, flags, prev, val, got))
     env.check('edge-type', isinstance(got, bool))
 
 
@@ -321,7 +352,7 @@ def scen_pipeline(env, n):
     kinds = []
     for i in range(n):
         kind = env.pick(['edit', 'pass-true', 'pass-1', 'pass-str', 'rej-false', 'rej-none', 'rej-0',
-                         'sym', 'replace-empty', 'missing'], f'f{i}')
+                         'sym', 'replace-empty', 'missing', 'inplace', 'userdict'], f'f{i}')
         kinds.append(kind)
         if kind == 'missing':
             continue
@@ -334,6 +365,13 @@ def scen_pipeline(env, n):
                 return {**data, f'k{i}': cst, 'seen': data.get('seen', 0) + 1}
             if kind == 'replace-empty':
                 return {}
+            if kind == 'inplace':
+                # docs/events.rst: filters may modify the event data in place
+                data[f'ip{i}'] = i
+                return True
+            if kind == 'userdict':
+                import collections
+                return collections.UserDict({**data, f'ud{i}': i})      # a mutable mapping that is not a dict
             if kind == 'sym':
                 return cond
             return {'pass-true': True, 'pass-1': 1, 'pass-str': 'x', 'rej-false': False,
@@ -356,6 +394,10 @@ def scen_pipeline(env, n):
             data = {**data, f'k{i}': cst, 'seen': data.get('seen', 0) + 1}
         elif kind == 'replace-empty':
             data = {}
+        elif kind == 'inplace':
+            data = {**data, f'ip{i}': i}
+        elif kind == 'userdict':
+            data = {**data, f'ud{i}': i}
         elif kind == 'sym':
             if not cond:       # decided on this path already (same SymBool)
                 passed = False
@@ -374,6 +416,54 @@ def scen_pipeline(env, n):
                   info=lambda: (kinds, sink, data))
     else:
         env.check('pipeline-data', len(sink) == 0)
+
+
+def scen_dataedit_two(env):
+    """a chain with TWO add_output operations reading different blocks, a multi-item add, and two deliveries
+    through the same Event/DataEdit objects with different key sets while the blocks' outputs change in between:
+    every delivery is edited on its own data and reads the CURRENT outputs"""
+    circ = sync_circuit()
+    sink = []
+    p = SinkProbe('p', sink=sink)
+    ctl, ctl2 = Settable('ctl'), Settable('ctl2')
+    src = Settable('src')
+    swap = env.choose(2, 'swap')
+    b1, b2 = (ctl, ctl2) if not swap else (ctl2, ctl)
+    by_name = env.choose(2, 'by_name')
+    k1, k2 = env.int('const1'), env.int('const2')
+    r = lambda b: b.name if by_name else b
+    de = edzed.DataEdit.add_output('a', r(b1)).add_output('b', r(b2)).add(c=k1, d=k2).copy('source', 'origin')
+    tail = env.pick(['none', 'rename-value', 'delete-source', 'permit'], 'tail')
+    if tail == 'rename-value':
+        de = de.rename('value', 'v2')
+    elif tail == 'delete-source':
+        de = de.delete('source')
+    elif tail == 'permit':
+        de = de.permit('a', 'b', 'value', 'zzz')
+    ev = edzed.Event(p, 'e', efilter=de)
+    start_sync(circ)
+    for rnd in range(2):
+        o1, o2 = env.int(f'out1_{rnd}'), env.int(f'out2_{rnd}')
+        ctl.event('set', value=o1)
+        ctl2.event('set', value=o2)
+        data = {'x': env.int('x'), 'value': env.int('value0')} if rnd == 0 else {'y': env.int('y'), 'value': env.int('value')}
+        del sink[:]
+        ret = ev.send(src, **data)
+        exp = dict(data)
+        exp['source'] = 'src'
+        exp['a'] = b1.output
+        exp['b'] = b2.output
+        exp['c'], exp['d'] = k1, k2
+        exp['origin'] = 'src'
+        if tail == 'rename-value' and 'value' in exp:
+            exp['v2'] = exp.pop('value')
+        elif tail == 'delete-source':
+            del exp['source']
+        elif tail == 'permit':
+            exp = {k: v for k, v in exp.items() if k in ('a', 'b', 'value', 'zzz')}
+        env.check('dataedit', ret is True and len(sink) == 1 and dict_eq(sink[0][2], exp),
+                  info=lambda: (rnd, tail, sink, exp))
+    env.note('two-deliveries-two-control-blocks')
 
 
 def scen_ctrl(env, rounds=3):
@@ -426,6 +516,8 @@ def scen_ctrl(env, rounds=3):
 def shards(tier):
     b = BOUNDS[tier]
     out = [{'name': 'edge', 'scenario': 'scen_edge'},
+           {'name': 'edge forms and object values', 'scenario': 'scen_edge_forms'},
+           {'name': 'dataedit two control blocks, two deliveries', 'scenario': 'scen_dataedit_two'},
            {'name': 'not_from_undef', 'scenario': 'scen_nfu'},
            {'name': 'ctrl filters', 'scenario': 'scen_ctrl'}]
     for kind in ('int', 'real'):
